@@ -32,8 +32,8 @@ let () =
       Printf.sprintf "valid=%s msg=%s" (b2s (tx_response_is_valid r)) (hex_of_str (response_message r (n_of_decstr n)))
     | _ -> failwith "respadd");
   reg "reqmsg" (fun a -> match a with [m; u; ma; mi; hs; n] ->
-      let r = { rq_method = str_of_hex m; rq_uri = str_of_hex u; rq_major = n_of_int (int_of_string ma);
-                rq_minor = n_of_int (int_of_string mi); rq_headers = str_of_hex hs } in
+      let r = { tq_method = str_of_hex m; tq_uri = str_of_hex u; tq_major = n_of_int (int_of_string ma);
+                tq_minor = n_of_int (int_of_string mi); tq_headers = str_of_hex hs } in
       hex_of_str (request_message r (n_of_decstr n))
     | _ -> failwith "reqmsg");
   reg "chunkhdr" (fun a -> match a with [n; ext] -> hex_of_str (chunk_header_string (n_of_decstr n) (str_of_hex ext)) | _ -> failwith "chunkhdr");
